@@ -14,6 +14,7 @@ import (
 	"sync"
 	"time"
 
+	"github.com/wi1dcard/fingerproxy/pkg/verifhook"
 	"verifharness/h2raw"
 	"verifharness/hello"
 	"verifharness/hellospec"
@@ -80,12 +81,54 @@ func main() {
 	var mu sync.Mutex
 	var all []ConnObs
 	id := 0
-	for w := 0; w < waves; w++ {
+	// gated waves: all connections of the wave are held at one instrumentation point of serveConn until every one of them
+	// has got there (or 300ms passed), then released together - each point in turn, so that whatever a connection set up before
+	// the point is exposed to what the others set up before it
+	points := []string{"proxyserver.conn.start", "proxyserver.handshake", "proxyserver.hello", "proxyserver.h2.begin", "proxyserver.h1.send", "proxyserver.h1.sent"}
+	rounds := 2
+	if os.Getenv("VERIF_TIER") == "thorough" {
+		rounds = 10
+	}
+	total := waves + rounds*len(points)
+	for w := 0; w < total; w++ {
 		var wg sync.WaitGroup
+		gated := w >= waves
+		if gated {
+			nconn = 6
+			pt := points[(w-waves)%len(points)]
+			want := nconn
+			if pt == "proxyserver.h2.begin" || pt == "proxyserver.h1.send" || pt == "proxyserver.h1.sent" {
+				want = nconn / 2
+			}
+			var bmu sync.Mutex
+			arrived := 0
+			open := make(chan struct{})
+			var once sync.Once
+			verifhook.Sink = func(point string, args ...any) {
+				if point != pt {
+					return
+				}
+				bmu.Lock()
+				arrived++
+				full := arrived >= want
+				bmu.Unlock()
+				if full {
+					once.Do(func() { close(open) })
+				}
+				select {
+				case <-open:
+				case <-time.After(300 * time.Millisecond):
+					once.Do(func() { close(open) })
+				}
+			}
+		}
 		for k := 0; k < nconn; k++ {
 			id++
 			d := variant(rng, id)
 			h1 := rng.Intn(2) == 0
+			if gated {
+				h1 = k%2 == 0
+			}
 			if h1 {
 				d.ALPN = []string{"http/1.1"}
 			}
@@ -95,6 +138,9 @@ func main() {
 			}
 			nreq := 2 + rng.Intn(3)
 			delay := time.Duration(rng.Intn(15)) * time.Millisecond
+			if gated {
+				delay = 0
+			}
 			linger := time.Duration(rng.Intn(20)) * time.Millisecond
 			wg.Add(1)
 			go func(id int, d hellospec.Desc, pre *Preamble, nreq int) {
@@ -177,6 +223,9 @@ func main() {
 			}(id, d, pre, nreq)
 		}
 		wg.Wait()
+		if gated {
+			verifhook.Sink = nil
+		}
 	}
 	b, _ := json.Marshal(all)
 	os.WriteFile(out, b, 0o644)
